@@ -2,7 +2,7 @@
    the concrete table of the running engine).  That the three producers (FEN loader, text-move applier,
    generator) actually establish and keep key = from-scratch hash on whole games is, beyond the lemmas
    below, decided by the correspondence check against Spec.hash on every prefix of generated games. *)
-From Walleye Require Import Model.Zobrist Spec.Abs Proofs.Cells Proofs.HashProofs Proofs.ZobristConcrete Gen.ZobristTable.
+From Walleye Require Import Model.Successor Model.Fen Spec.Abs Proofs.Cells Proofs.HashProofs Proofs.KeyInvariant Proofs.ZobristConcrete Gen.ZobristTable.
 Open Scope N_scope.
 
 (* the helpers that do not touch the squares keep key = hash (abs board), for every table *)
@@ -22,6 +22,33 @@ Theorem C05_hash_of_written_square : forall zt b p v,
   hash_placement zt (abs_placement (set b p v))
   = N.lxor (N.lxor (hash_placement zt (abs_placement b)) (zterm zt (get b p) p)) (zterm zt v p).
 Proof. exact hash_placement_set. Qed.
+
+(* the generator: every successor it produces, in both modes (ordinary moves, promotions, en passant,
+   castling), has key = from-scratch hash if its parent has -- for every table.  gen_ok asks for the
+   invariant itself, the sentinel ring, king caches on the board and an en-passant target that sits
+   behind a pawn of the side that just moved (all true of every position reached from a FEN of a legal
+   position; checked below on the start position with the concrete table). *)
+Theorem C05_generator_keeps_invariant : forall zt s m x,
+  gen_ok zt s -> In x (generate_moves zt s m) -> key_ok zt x.
+Proof. exact generate_moves_key_ok. Qed.
+
+(* non-vacuity: the start position loaded by the model's FEN loader with the engine's table meets gen_ok,
+   so all its 20 successors carry the from-scratch key *)
+Example C05_start_position_meets_hypotheses :
+  match from_fen zt_concrete DEFAULT_FEN_STRING with
+  | Ok s => gen_ok zt_concrete s /\ length (generate_moves zt_concrete s AllMoves) = 20%nat
+  | _ => False
+  end.
+Proof.
+  destruct (from_fen zt_concrete DEFAULT_FEN_STRING) as [s| |] eqn:E; [|vm_compute in E; discriminate|vm_compute in E; discriminate].
+  assert (Es : Ok s = from_fen zt_concrete DEFAULT_FEN_STRING) by (symmetry; exact E).
+  vm_compute in Es. injection Es as ->.
+  split; [|vm_compute; reflexivity].
+  split; [vm_compute; reflexivity|].
+  split; [apply wf_cells_board_ok; vm_compute; reflexivity|].
+  split; [intros t Ht; discriminate|].
+  split; vm_compute; reflexivity.
+Qed.
 
 (* the concrete table: every single-component change of a position changes the key *)
 Theorem C05_concrete_piece_words : forall pc p,
@@ -51,6 +78,7 @@ Print Assumptions C05_castling_rights_keep_invariant.
 Print Assumptions C05_unset_en_passant_keeps_invariant.
 Print Assumptions C05_set_en_passant_keeps_invariant.
 Print Assumptions C05_hash_of_written_square.
+Print Assumptions C05_generator_keeps_invariant.
 Print Assumptions C05_concrete_piece_words.
 Print Assumptions C05_concrete_other_words.
 Print Assumptions C05_nonzero_word_changes_key.
